@@ -30,7 +30,7 @@ func snap(cfg string) e3Call { return e3Call{API: "snap", Cfg: cfg} }
 func c08Programs() map[string]e3Spec {
 	return map[string]e3Spec{
 		"P1-default-files": {
-			"TestA":        {Calls: []e3Call{snap("default"), snap("default")}, Subs: []e3Sub{{Name: "x", Calls: []e3Call{snap("default")}}, {Name: "xy", Calls: []e3Call{snap("default")}}}},
+			"TestA": {Calls: []e3Call{snap("default"), snap("default")}, Subs: []e3Sub{{Name: "x", Calls: []e3Call{snap("default")}}, {Name: "xy", Calls: []e3Call{snap("default")}}}},
 			// (a sibling whose name merely extends TestA's, with subtests of its own: TestAB/x is no descendant of TestA)
 			"TestAB":       {Calls: []e3Call{snap("default")}, Subs: []e3Sub{{Name: "x", Calls: []e3Call{snap("default")}}, {Name: "y", Calls: []e3Call{snap("default")}}}},
 			"TestSub":      {Calls: []e3Call{snap("default")}, Subs: []e3Sub{{Name: "sub", Calls: []e3Call{snap("default")}}, {Name: "1", Calls: []e3Call{snap("default")}}}},
